@@ -452,11 +452,18 @@ func (s *stepper) reference(rs reqSpec) (*httptest.ResponseRecorder, error) {
 	return a, nil
 }
 
-func (s *stepper) configObs(setOK bool) replay.Obs {
+// configObs observes the configuration: the advertised capability (OPTIONS
+// probe) and, when probe is set, the set of codecs the server answers
+// single-codec offers with.
+func (s *stepper) configObs(setOK, probe bool) replay.Obs {
 	obs := replay.Obs{"set_ok": setOK}
 	notes := []string{}
 	opt := s.do(reqSpec{"options-health", "OPTIONS", "/health", "", nil}, hv{}, hv{})
 	obs["adv"], obs["adv_header"] = advOf(opt.Header())
+	if !probe {
+		obs["__skip__"] = true
+		return obs
+	}
 	// single-codec probes: which codecs does the server answer with?
 	body, _ := requestBody("echo", "probe payload "+strings.Repeat("z", s.rng.Intn(200)))
 	rs := reqSpec{"echo", "POST", "/echo", arrowCT, body}
@@ -512,7 +519,11 @@ func (s *stepper) configObs(setOK bool) replay.Obs {
 func (s *stepper) Step(i int, st replay.Step) (replay.Obs, error) {
 	switch {
 	case st.A == "Init":
-		obs := s.configObs(true)
+		// Every behaviour starts from the same freshly constructed server, so the
+		// (comparatively expensive) codec probes of the Init step are run on a
+		// seeded 1-in-8 sample of the behaviours; after every SetCompressionLevel
+		// step they are always run.
+		obs := s.configObs(true, s.rng.Intn(8) == 0)
 		if want := replay.Int(st.Args, "default_level"); vgirpc.DefaultCompressionLevel != want {
 			obs["__note__"] = fmt.Sprintf("DefaultCompressionLevel=%d, model assumes %d", vgirpc.DefaultCompressionLevel, want)
 		}
@@ -520,7 +531,7 @@ func (s *stepper) Step(i int, st replay.Step) (replay.Obs, error) {
 
 	case strings.HasPrefix(st.A, "SetCompressionLevel_"):
 		err := s.h.SetCompressionLevel(replay.Int(st.Args, "level"))
-		obs := s.configObs(err == nil)
+		obs := s.configObs(err == nil, true)
 		return obs, nil
 
 	case strings.HasPrefix(st.A, "Serve_"):
